@@ -163,7 +163,7 @@ func c06History(t *testing.T, o *vOut, seed int64, keyTypes []KeyType, idx int) 
 		for step := 0; step < nops; step++ {
 			op := "obtain"
 			if step > 0 {
-				op = []string{"renew", "renew", "compromise", "obtain", "dropcert", "obtainfault", "obtain"}[rng.Intn(7)]
+				op = []string{"renew", "renew", "compromise", "obtain", "dropcert", "obtainfault", "obtain", "revokekc"}[rng.Intn(8)]
 				if nIss == 2 && rng.Intn(4) == 0 {
 					op = "flip" // the first issuer goes down / comes back: the other one answers meanwhile
 				}
@@ -194,6 +194,27 @@ func c06History(t *testing.T, o *vOut, seed int64, keyTypes []KeyType, idx int) 
 					viss[0].Behave = nil
 				}
 				o.Stat("issuer_outage_flips", 1)
+				continue
+			case "revokekc":
+				// the operator revokes the certificate for KEY COMPROMISE (Config.RevokeCert): the assets
+				// are deleted, key included — the replacement never gets that key, key reuse or not
+				if nIss != 1 {
+					continue
+				}
+				if kb, e := st.Load(ctx, StorageKeys.SitePrivateKey(viss[0].IssuerKey(), subj.canon)); e == nil {
+					if pk, e := PEMDecodePrivateKey(kb); e == nil {
+						compromised[keys.id(c06PubHashOfPriv(pk))] = true
+					}
+				}
+				if e := cfg.RevokeCert(ctx, subj.canon, 1 /* keyCompromise */, false); e != nil {
+					opsTok = append(opsTok, "revokekc:err")
+					obsTok = append(obsTok, "-")
+					continue
+				}
+				cache.RemoveManaged([]SubjectIssuer{{Subject: subj.canon}})
+				opsTok = append(opsTok, "dropall")
+				obsTok = append(obsTok, "-")
+				o.Stat("revocations_for_key_compromise", 1)
 				continue
 			case "dropcert":
 				// certificate and metadata disappear, the private key stays (an administrator's clean-up,
